@@ -37,6 +37,9 @@ def main():
     ap.add_argument("--skip-confirm", action="store_true")
     ap.add_argument("--needs", default="")
     ap.add_argument("--props", default="", help="comma list of properties to run (default: all)")
+    ap.add_argument("--scratch", action="store_true", help="run the checks against a scratch export of /repo HEAD with the patch applied (VERIF_REPO), props in parallel, instead of patching /repo itself")
+    ap.add_argument("--confirm-only", action="store_true")
+    ap.add_argument("--par", type=int, default=4)
     a = ap.parse_args()
     wt = a.wt
     md = os.path.join(wt, "mutants", a.mutant)
@@ -93,26 +96,60 @@ def main():
             print(out2[-800:])
             return 1
 
-    # apply to /repo, run the checks, undo
-    rc, out = sh("git -C /repo status --porcelain")
-    if out.strip():
-        print("/repo is not clean:", out)
-        return 2
-    rc, out = sh("git -C /repo apply %s" % patch)
-    if rc != 0:
-        print("patch does not apply to /repo:", out)
-        return 2
+    if a.confirm_only:
+        dst = os.path.join(VERIF, "seeded", a.seed_id)
+        os.makedirs(dst, exist_ok=True)
+        shutil.copy(patch, os.path.join(dst, "patch.diff"))
+        shutil.copy(demo, os.path.join(dst, os.path.basename(demo)))
+        if os.path.exists(os.path.join(md, "README.md")):
+            shutil.copy(os.path.join(md, "README.md"), os.path.join(dst, "README.md"))
+        meta = {"seed_id": a.seed_id, "breaks_property": a.prop, "needs_to_manifest": a.needs,
+                "demo": {"file": os.path.basename(demo), "placement": "%s %s" % (a.demo_mode, a.demo_target), "test_filter": a.demo_filter, "crate": a.crate, "features": a.features},
+                "confirmation": confirm, "what_i_ran": ran, "checks": {}}
+        json.dump(meta, open(os.path.join(dst, "meta.json"), "w"), indent=1)
+        return 0
+
+    props = a.props.split(",") if a.props else ["C%02d" % i for i in range(1, 21)]
     results = {}
-    try:
-        props = a.props.split(",") if a.props else ["C%02d" % i for i in range(1, 21)]
-        for p in props:
-            t0 = time.time()
-            rc, out = sh("bin/check %s" % p, cwd=VERIF, timeout=3000)
-            lines = [l for l in out.split("\n") if l.startswith(("VIOLATION", "MACHINERY", "OK ", "KNOWN-FINDING"))]
-            results[p] = {"rc": rc, "lines": [l[:400] for l in lines][:6], "wall_s": round(time.time() - t0, 1)}
-            print("  %s rc=%d %s" % (p, rc, (lines[0][:200] if lines else out[-200:])))
-    finally:
-        sh("git -C /repo checkout -- .")
+
+    def run_prop(p, extra_env=None):
+        t0 = time.time()
+        e = dict(os.environ)
+        e.update(extra_env or {})
+        rc, out = sh("bin/check %s%s" % (p, " --no-evidence" if extra_env else ""), cwd=VERIF, env=e, timeout=3000)
+        lines = [l for l in out.split("\n") if l.startswith(("VIOLATION", "MACHINERY", "OK ", "KNOWN-FINDING"))]
+        results[p] = {"rc": rc, "lines": [l[:400] for l in lines][:6], "wall_s": round(time.time() - t0, 1)}
+        print("  %s rc=%d %s" % (p, rc, (lines[0][:200] if lines else out[-200:])), flush=True)
+
+    if a.scratch:
+        import tempfile
+        from concurrent.futures import ThreadPoolExecutor
+        sd = tempfile.mkdtemp(prefix="vf_seed.", dir="/tmp")
+        try:
+            rc, out = sh("git -C /repo archive HEAD | tar -x -C %s && cd %s && patch -p1 -s < %s" % (sd, sd, patch))
+            if rc != 0:
+                print("patch does not apply to an export of /repo HEAD:", out)
+                return 2
+            with ThreadPoolExecutor(max_workers=a.par) as ex:
+                list(ex.map(lambda p: run_prop(p, {"VERIF_REPO": sd, "VERIF_WORK": os.path.join(sd + "_work", p), "VERIF_JOBS": "6"}), props))
+        finally:
+            shutil.rmtree(sd, ignore_errors=True)
+            shutil.rmtree(sd + "_work", ignore_errors=True)
+    else:
+        # apply to /repo, run the checks, undo
+        rc, out = sh("git -C /repo status --porcelain")
+        if out.strip():
+            print("/repo is not clean:", out)
+            return 2
+        rc, out = sh("git -C /repo apply %s" % patch)
+        if rc != 0:
+            print("patch does not apply to /repo:", out)
+            return 2
+        try:
+            for p in props:
+                run_prop(p)
+        finally:
+            sh("git -C /repo checkout -- .")
     caught = sorted(p for p, r in results.items() if r["rc"] == 1)
     undecided = sorted(p for p, r in results.items() if r["rc"] == 2)
     dst = os.path.join(VERIF, "seeded", a.seed_id)
@@ -136,7 +173,7 @@ def main():
         "demo": old.get("demo") or {"file": os.path.basename(demo), "placement": "%s %s" % (a.demo_mode, a.demo_target), "test_filter": a.demo_filter, "crate": a.crate, "features": a.features},
         "confirmation": confirm,
         "what_i_ran": ran,
-        "checks": {"caught_by": caught, "undecided_exit2": undecided, "target_property_caught": a.prop in caught, "results": results},
+        "checks": {"mode": "scratch export of /repo HEAD + patch (VERIF_REPO)" if a.scratch else "git -C /repo apply; bin/check; git -C /repo checkout -- .", "caught_by": caught, "undecided_exit2": undecided, "target_property_caught": a.prop in caught, "results": results},
     }
     json.dump(meta, open(os.path.join(dst, "meta.json"), "w"), indent=1)
     print("SEED %s breaks %s: caught by %s; exit-2 in %s" % (a.seed_id, a.prop, caught, undecided))
